@@ -46,6 +46,35 @@ def _set_parents(tree: ast.AST) -> None:
 FuncTypes = (ast.FunctionDef, ast.AsyncFunctionDef)
 
 
+class _Normaliser(ast.NodeTransformer):
+    """Normal form applied to every module when it is loaded, so that no rule depends on which of two equivalent
+    spellings the source uses: a two-armed `if not X: A else: B` (statement or conditional expression) is read as
+    `if X: B else: A`, and directly nested one-armed ifs are read as one conjunction.  Positions are kept (reports still point at the real lines)."""
+
+    def visit_If(self, n):
+        self.generic_visit(n)
+        if isinstance(n.test, ast.UnaryOp) and isinstance(n.test.op, ast.Not) and n.orelse and not (len(n.orelse) == 1 and isinstance(n.orelse[0], ast.If)):
+            n.test, n.body, n.orelse = n.test.operand, n.orelse, n.body
+        # `if a:\n    if b: X` (no else on either, nothing else in the outer body) is `if a and b: X`
+        while not n.orelse and len(n.body) == 1 and isinstance(n.body[0], ast.If) and not n.body[0].orelse:
+            inner = n.body[0]
+            left = n.test.values if isinstance(n.test, ast.BoolOp) and isinstance(n.test.op, ast.And) else [n.test]
+            right = inner.test.values if isinstance(inner.test, ast.BoolOp) and isinstance(inner.test.op, ast.And) else [inner.test]
+            n.test = ast.copy_location(ast.BoolOp(op=ast.And(), values=[*left, *right]), n.test)
+            n.body = inner.body
+        return n
+
+    def visit_IfExp(self, n):
+        self.generic_visit(n)
+        if isinstance(n.test, ast.UnaryOp) and isinstance(n.test.op, ast.Not):
+            n.test, n.body, n.orelse = n.test.operand, n.orelse, n.body
+        return n
+
+
+def _normalise(tree: ast.AST) -> None:
+    _Normaliser().visit(tree)
+
+
 def _collect_defs(mod: Module) -> None:
     def rec(body, prefix, owner_class):
         for st in body:
@@ -176,6 +205,7 @@ class Tree:
                 name = rel[:-3].replace(os.sep, ".")
                 if is_pkg:
                     name = name[: -len(".__init__")]
+                _normalise(tree)
                 _set_parents(tree)
                 mod = Module(name=name, path=rel, src=src, tree=tree, is_pkg=is_pkg)
                 _collect_defs(mod)
